@@ -47,6 +47,7 @@ package lua
 //@ define overflow(rg *registry, n int) bool = n > cap(rg.array) && ite(n + rg.growBy > rg.maxSize, rg.maxSize, n + rg.growBy) < n
 
 //@ func (*registry).SetTop [C01 C07 C10 C12]
+//@ logged
 //@ requires Inv_reg(rg) && topi >= 0
 //@ raises when overflow(rg, topi)
 //@ ensures  Inv_reg(rg) && rg.top == topi
@@ -449,5 +450,7 @@ package lua
 //@ assert@"if sp == 0 {" rcv != nil ==> ls.reg.top == base && err != nil
 // C03 on the error path: before the registers from base upwards are released, the upvalues pointing at them are closed
 // (closeUpvalues(base) is recorded in the ghost call log on every recovered-error path; what closeUpvalues does is its own contract)
-//@ assert@"if sp == 0 {" rcv != nil ==> ncalls() >= 1 && callfn(ncalls() - 1) == fnid("(*LState).closeUpvalues") && callargInt(ncalls() - 1, 1) == base
+//@ assert@"if sp == 0 {" rcv != nil ==> ncalls() >= 2 && callfn(ncalls() - 2) == fnid("(*LState).closeUpvalues") && callargInt(ncalls() - 2, 1) == base && callfn(ncalls() - 1) == fnid("(*registry).SetTop") && callargInt(ncalls() - 1, 1) == base
+// after a recovered error the current frame is the frame that made the protected call
+//@ assert@"if sp == 0 {" rcv != nil && sp > 0 ==> ls.currentFrame == $frame(ls.stack, sp - 1)
 //@ modifies everything
